@@ -95,22 +95,30 @@ class Disk:
             open(os.path.join(self.root, p), "w").close()
         self.have = want
 
-API_MSG = None
+API_PREFIX = None
 
 def calibrate(ext):
     """The glue turns every engine error into ValueError(str(error)); only the text tells the kinds apart.
-    The API error's text is constant: learn it by provoking one (a second event_startup), so that a
-    reworded message is no divergence. Internal and contract errors both count as 'error'."""
-    global API_MSG
+    Learn what API errors look like by provoking four different ones on a tiny graph and taking their common
+    prefix, so that reworded messages are no divergence. Internal and contract errors both count as 'error'."""
+    global API_PREFIX
     e = ext.PPG2Evaluator({}, lambda *a: True, lambda j: "")
-    e.add_node("calib", "Output")
+    e.add_node("calib_a", "Output")
+    e.add_node("calib_b", "Output")
+    e.add_edge("calib_b", "calib_a")
     e.event_startup()
-    try:
-        e.event_startup()
-    except ValueError as ex:
-        API_MSG = str(ex)
-    if API_MSG is None:
-        raise RuntimeError("second event_startup was not rejected with ValueError")
+    msgs = []
+    for f in (lambda: e.event_startup(), lambda: e.event_now_running("calib_b"),
+              lambda: e.event_job_success("calib_a", "x"), lambda: e.event_job_cleanup_done("calib_a")):
+        try:
+            f()
+        except ValueError as ex:
+            msgs.append(str(ex))
+    if len(msgs) != 4:
+        raise RuntimeError("misuse calls on the calibration graph were not all rejected with ValueError")
+    API_PREFIX = os.path.commonprefix(msgs)
+    if len(API_PREFIX) < 5:
+        raise RuntimeError("API error messages have no common prefix: " + repr(msgs))
 
 def coarse(kind):
     return "error" if kind in ("internal", "contract") else kind
@@ -120,7 +128,7 @@ def kind_of(exc):
     if n == "PanicException":
         return "panic"
     if isinstance(exc, ValueError):
-        return "api" if str(exc) == API_MSG else "error"
+        return "api" if str(exc).startswith(API_PREFIX) else "error"
     if isinstance(exc, KeyError):
         return "nosuchjob"
     return "exception:" + n + ":" + str(exc)[:80]
